@@ -28,7 +28,7 @@ RULE = ("one run = one generated project (1-5 empty snapshot() sites over ==, <=
         "session(create) then a read-back with inline-snapshot disabled, under one formatter state; "
         "distinct = (operation, placement, value type-path, formatter state, driver) tuples seen on reached sites; "
         "a run is non-trivial when at least one site was created and read back")
-RULE += " Dimensions added while testing against seeded changes: odd constructor shapes (attrs private attribute, dataclass field with init=False, IntFlag bits without a name, complex numbers with an infinite part), keyword-only dataclasses, twin files, late imports, mutation after the comparison."
+RULE += " Dimensions added while testing against seeded changes: odd constructor shapes (attrs private attribute, dataclass field with init=False, IntFlag bits without a name, complex numbers with an infinite part), keyword-only dataclasses, twin files, late imports, mutation after the comparison; CRLF projects with a CRLF-writing format-command and multi-line strings; files that import HasRepr / external only below module level; an object whose repr is a statement."
 ASSUMPTIONS = [
     "dirty-equals is not installed: no dirty-equals workload",
     "values whose deep copy is rejected by the library (usage error) are exempt",
